@@ -8,8 +8,10 @@ alias tag `t` (0 int / str char / byte, 1 float, 2 bool).  Python `==`/`hash` on
 class `cls c` (`0` for None, `v + 1` otherwise).  Lists are comma separated, `-` = empty.
 
   chunked <size> <count|-> <fill|-> <xs>
+  chunkedk <input kind> <size> <count|-> <fill|-> <xs>     (answers `ok <chunk type> <chunks>`)
   windowed <size> <fill|-> <xs>          pairwise <end|-> <xs>
   split <sep> <maxsplit|-> <xs>          sep: n | v<code> | t<codes> (a str separator) | s<codes> | c<codes>
+                                         | k<kind>:<codes> (an object of that kind holding the items)
   lstrip|rstrip|strip <code> <xs>
   unique <key> <xs>                      key: id | mod<k> | div<k> | const | bool | real | imag | den | nope
   redundant <key> <0|1> <xs>
@@ -73,6 +75,25 @@ def sep? (s : String) : Option (Sep Nat) :=
   | 'c' => (natList? rest).map fun vs => .func (fun x => (vs.map cls).contains (cls x))
   | _ => none
 
+/-- separator token → the Python object passed as `sep`; `k<kind>:<codes>` is an object of that kind
+    holding the items (`kbytearray:4,7`, `kset:-`), the other tokens as in `sep?` -/
+def sepObj? (s : String) : Option (SepObj Nat) :=
+  let rest := (s.drop 1).toString
+  match s.front with
+  | 'n' => if rest = "" then some .none else none
+  | 'v' => rest.toNat?.map .item
+  | 't' => (natList? rest).map (.holding .str)
+  | 's' => (natList? rest).map (.holding .list)
+  | 'c' => (natList? rest).map fun vs => .func (fun x => (vs.map cls).contains (cls x))
+  | 'k' =>
+    match splitOnChar rest ':' with
+    | [kind, codes] =>
+      match SepKind.ofName? kind, natList? codes with
+      | some k, some vs => some (.holding k vs)
+      | _, _ => none
+    | _ => none
+  | _ => none
+
 /-- key token → the `key` argument (item codes → key classes).  Attribute names: `real` exists on every
     number, `imag` too (always 0), `denominator` on ints and bools only, `no_such_attribute` nowhere;
     `None` has none of them. -/
@@ -122,6 +143,13 @@ def handle (line : String) : String :=
     match param? size, optParam? count, optNat? fill, natList? xs with
     | some size, some count, some fill, some xs => showRes (chunkedP size count fill xs)
     | _, _, _, _ => "bad-op"
+  | ["chunkedk", kind, size, count, fill, xs] =>
+    match param? size, optParam? count, optNat? fill, natList? xs with
+    | some size, some count, some fill, some xs =>
+      match chunkedK (SrcKind.ofName kind) size count fill xs with
+      | .ok (ck, l) => "ok " ++ (if ck = .list then "seq" else ck.name) ++ " " ++ showLL l
+      | .error e => showErr e
+    | _, _, _, _ => "bad-op"
   | ["windowed", size, fill, xs] =>
     match param? size, optNat? fill, natList? xs with
     | some size, some fill, some xs => showRes (windowedP size fill xs)
@@ -131,8 +159,8 @@ def handle (line : String) : String :=
     | some fill, some xs => showRes (pairwise fill xs)
     | _, _ => "bad-op"
   | ["split", sep, ms, xs] =>
-    match sep? sep, optParam? ms, natList? xs with
-    | some sep, some ms, some xs => "ok " ++ showLL (splitS eqv isNoneCode sep ms xs)
+    match sepObj? sep, optParam? ms, natList? xs with
+    | some sep, some ms, some xs => "ok " ++ showLL (splitO eqv isNoneCode sep ms xs)
     | _, _, _ => "bad-op"
   | ["pysplit", sep, ms, xs] =>
     match sep? sep, optNat? ms, natList? xs with
